@@ -1,10 +1,13 @@
 import HC.Proto.Wrapper
+import HC.Proto.WrapperRun
+import HC.Lib.H2Settings
+import HC.Extracted.Select
 import HC.Props.C01
 /-!
 # C13 — protocol selection and upgrades lose no bytes and ignore segmentation
 -/
 namespace HC.Props.C13
-open HC HC.Proto.H11 HC.Proto.Wrapper HC.Utils
+open HC HC.Proto.H11 HC.Proto.Wrapper HC.Utils HC.Extracted
 
 /-- **ALPN**: HTTP/2 iff `h2` was negotiated -/
 theorem select_alpn (alpn : Option String) : selectByAlpn alpn = .h2 ↔ alpn = some "h2" := by
@@ -122,5 +125,329 @@ example :
 example : checkProtocol { method := "PRI".b, target := "*".b, headers := [], version := "2.0".b } = .prior := by decide
 example : checkProtocol { method := "POST".b, target := "/".b, headers := [("upgrade".b, "h2c".b), ("content-length".b, "3".b)], version := "1.1".b } = .none := by
   decide
+
+
+/-! ## The selection tests are the source's own (regenerated by `tools/extract_select.py`) -/
+
+def ofSw : Select.Sw → Switch
+  | .none => .none
+  | .h2c => .h2c
+  | .prior => .prior
+
+/-- **`checkProtocol` is `_check_protocol`'s if / elif chain** over its three atoms, with the source's constants: the loop's
+    keys (`upgrade`; `content-length` / `transfer-encoding`), the token `h2c`, the request line `PRI * HTTP/2.0` and the line
+    the wrapper puts back in front of the trailing data; the 101 (`connection: upgrade`, `upgrade: h2c` after the configured
+    headers) is written before `H2CProtocolRequiredError(trailing_data[0], event)` is raised -/
+theorem select_matches_source (r : ReqEv) :
+    checkProtocol r = ofSw (Select.switchOf (reqIsH2c r) (reqHasBody r) (reqIsPreface r)) ∧
+    Select.upgradeKey = "upgrade".b ∧ Select.h2cToken = "h2c".b ∧ Select.bodyKeys = ["content-length".b, "transfer-encoding".b] ∧
+    Select.prefaceMethod = "PRI".b ∧ Select.prefaceTarget = "*".b ∧ Select.prefaceVersion = "2.0".b ∧ Select.prefaceReplay = prefaceLine ∧
+    Select.h2c101Status = 101 ∧ Select.h2c101Extra = [("connection".b, "upgrade".b), ("upgrade".b, "h2c".b)] ∧
+    Select.h2c101BeforeRaise = true ∧ Select.switchDataIsTrailing = true := by
+  refine ⟨?_, by decide, by decide, by decide, by decide, by decide, by decide, by decide, by decide, by decide, by decide, by decide⟩
+  unfold checkProtocol Select.switchOf
+  cases reqIsH2c r <;> cases reqHasBody r <;> cases reqIsPreface r <;> rfl
+
+/-- **the hand-over, source side**: in both handlers of `ProtocolWrapper.handle` the new `H2Protocol` is constructed, `initiate`d and
+    then handed `error.data` (unless it is empty: handing over nothing and not handing over are the same byte string), which is what
+    `W.read` does with the trailing data -/
+theorem wrapper_replays_trailing (w : W) (hp : w.proto = .h11) (d rest : Bytes) :
+    Select.wrapperReplaysData = true ∧
+    (w.read d (some (.h2c, rest))).h2Input = rest ∧ (w.read d (some (.prior, rest))).h2Input = Select.prefaceReplay ++ rest ∧
+    (w.read d (some (.h2c, rest))).proto = .h2 ∧ (w.read d (some (.prior, rest))).proto = .h2 := by
+  have hpre : Select.prefaceReplay = prefaceLine := by decide
+  rw [hpre]
+  refine ⟨by decide, ?_, ?_, ?_, ?_⟩ <;> simp [W.read, hp, firstH2Input]
+
+/-- **ALPN, source side**: `ProtocolWrapper.__init__` constructs `H2Protocol` iff `alpn_protocol == "h2"`; both workers
+    pass `selected_alpn_protocol()` of the TLS object and `"http/1.1"` on a cleartext connection (which never selects h2) -/
+theorem select_alpn_source (alpn : Option String) :
+    (selectByAlpn alpn = .h2 ↔ Select.alpnSelectsH2 alpn = true) ∧ selectByAlpn (some Select.alpnCleartext) = .h11 := by
+  refine ⟨?_, by decide⟩
+  unfold selectByAlpn Select.alpnSelectsH2
+  split <;> simp_all
+
+/-! ## Segmentation: the outcome is a function of the concatenation of the reads
+
+`Wrapper.run P limit alpn rs` is hypercorn's own read path (one `ProtocolWrapper.handle(RawData)` per read, h11's answer for
+the bytes buffered so far, `_check_protocol`, the swap) over an *assumed* head parser `P : HeadParser` (prefix stability: the
+structure's fields, sampled against the installed h11 by the harness).  `Wrapper.outcome P alpn total` never sees the reads. -/
+
+/-- **for every list of reads - any number, any sizes - the protocol selected (with the request it was selected on: h11 /
+    h11 + WebSocket / h2 by ALPN / h2 by preface / h2 by h2c, served or refused), the bytes the HTTP/1 parser consumed and
+    the bytes handed to the HTTP/2 connection are those of `outcome … rs.flatten`**; with them the 101, the entry point of
+    `initiate`, the synthesised stream-1 headers and the settings payload (functions of the selection).
+    `WithinLimit`: no *incomplete* head among the prefixes outgrows `h11_max_incomplete_size` (otherwise h11 itself answers
+    431 depending on where the read ended: `segmentation_dependent_beyond_limit`) -/
+theorem segmentation_independent (P : HeadParser) (limit : Nat) (alpn : Option String) (rs : List Bytes)
+    (hl : WithinLimit P limit rs.flatten) :
+    (run P limit alpn rs).view = outcome P alpn rs.flatten ∧
+    (run P limit alpn rs).sel.wrote101 = (outcome P alpn rs.flatten).sel.wrote101 ∧
+    (run P limit alpn rs).sel.initPath = (outcome P alpn rs.flatten).sel.initPath ∧
+    (run P limit alpn rs).sel.stream1 = (outcome P alpn rs.flatten).sel.stream1 ∧
+    (run P limit alpn rs).sel.refused = (outcome P alpn rs.flatten).sel.refused := by
+  have h := run_view P limit alpn rs hl
+  have hs : (run P limit alpn rs).sel = (outcome P alpn rs.flatten).sel := congrArg View.sel h
+  exact ⟨h, by rw [hs], by rw [hs], by rw [hs], by rw [hs]⟩
+
+/-- any two segmentations of the same byte string end in the same state -/
+theorem segmentations_agree (P : HeadParser) (limit : Nat) (alpn : Option String) (rs rs' : List Bytes)
+    (he : rs.flatten = rs'.flatten) (hl : WithinLimit P limit rs.flatten) :
+    (run P limit alpn rs).view = (run P limit alpn rs').view := by
+  rw [run_view P limit alpn rs hl, run_view P limit alpn rs' (he ▸ hl), he]
+
+/-- every two-way split equals the one-read run -/
+theorem two_way_split_eq_one_read (P : HeadParser) (limit : Nat) (alpn : Option String) (a b : Bytes)
+    (hl : WithinLimit P limit (a ++ b)) :
+    (run P limit alpn [a, b]).view = (run P limit alpn [a ++ b]).view :=
+  segmentations_agree P limit alpn [a, b] [a ++ b] (by simp) (by simpa using hl)
+
+/-- the byte accounting of the specification: nothing lost, nothing duplicated, nothing reordered -/
+theorem outcome_bytes (P : HeadParser) (alpn : Option String) (total : Bytes) :
+    match (outcome P alpn total).sel with
+    | .alpn => (outcome P alpn total).h11Consumed = [] ∧ (outcome P alpn total).h2Input = total
+    | .h2c _ _ => (outcome P alpn total).h11Consumed ++ (outcome P alpn total).h2Input = total
+    | .prior _ => ∃ rest, (outcome P alpn total).h11Consumed ++ rest = total ∧ (outcome P alpn total).h2Input = prefaceLine ++ rest
+    | _ => (outcome P alpn total).h11Consumed = total ∧ (outcome P alpn total).h2Input = [] := by
+  unfold outcome
+  cases selectByAlpn alpn with
+  | h2 => simp
+  | h11 =>
+    cases hp : P.parse total with
+    | need => simp
+    | bad => simp
+    | head r n =>
+      dsimp only
+      cases hc : checkProtocol r with
+      | none => simp
+      | prior => exact ⟨total.drop n, by simp, by simp⟩
+      | h2c => simp
+
+/-- **no byte lost or duplicated, for every segmentation**: under ALPN every byte reaches the HTTP/2 connection and none an
+    HTTP/1 parser; after an h2c upgrade the HTTP/1 head and the HTTP/2 input partition the client's bytes; after the
+    preface the HTTP/2 input is the preface line followed by everything behind the head h11 consumed; otherwise every
+    byte went to the HTTP/1 parser -/
+theorem no_byte_lost_any_segmentation (P : HeadParser) (limit : Nat) (alpn : Option String) (rs : List Bytes)
+    (hl : WithinLimit P limit rs.flatten) :
+    match (run P limit alpn rs).view.sel with
+    | .alpn => (run P limit alpn rs).view.h11Consumed = [] ∧ (run P limit alpn rs).view.h2Input = rs.flatten
+    | .h2c _ _ => (run P limit alpn rs).view.h11Consumed ++ (run P limit alpn rs).view.h2Input = rs.flatten
+    | .prior _ => ∃ rest, (run P limit alpn rs).view.h11Consumed ++ rest = rs.flatten ∧
+                    (run P limit alpn rs).view.h2Input = prefaceLine ++ rest
+    | _ => (run P limit alpn rs).view.h11Consumed = rs.flatten ∧ (run P limit alpn rs).view.h2Input = [] := by
+  rw [run_view P limit alpn rs hl]
+  exact outcome_bytes P alpn rs.flatten
+
+/-- … and when the head h11 consumed *is* the preface line (what a client speaking HTTP/2 sends), the HTTP/2 connection is
+    given the client's bytes verbatim -/
+theorem prior_bytes_verbatim (P : HeadParser) (limit : Nat) (alpn : Option String) (rs : List Bytes) (r : ReqEv)
+    (hl : WithinLimit P limit rs.flatten) (hs : (run P limit alpn rs).view.sel = .prior r)
+    (hh : (run P limit alpn rs).view.h11Consumed = prefaceLine) :
+    (run P limit alpn rs).view.h2Input = rs.flatten := by
+  have h := no_byte_lost_any_segmentation P limit alpn rs hl
+  rw [hs] at h
+  obtain ⟨rest, h1, h2⟩ := h
+  rw [h2, ← h1, hh]
+
+/-- **ALPN h2: whatever the bytes and however they are cut, no `H11Protocol` is ever constructed and no byte reaches an
+    HTTP/1 parser**; `initiate()` is entered without arguments (no stream is made up).  No assumption on the parser, no limit -/
+theorem alpn_h2_never_h11 (P : HeadParser) (limit : Nat) (alpn : Option String) (rs : List Bytes) (ha : selectByAlpn alpn = .h2) :
+    (run P limit alpn rs).sel = .alpn ∧ (run P limit alpn rs).sel.h11Constructed = false ∧ (run P limit alpn rs).w.proto = .h2 ∧
+    (run P limit alpn rs).w.h11Input = [] ∧ (run P limit alpn rs).w.h2Input = rs.flatten ∧
+    (run P limit alpn rs).sel.initPath = some .plain := by
+  have hi : RS.init alpn = { sel := .alpn, w := { proto := .h2 } } := by simp [RS.init, ha]
+  have hr : run P limit alpn rs = rs.foldl (RS.step P limit) { sel := .alpn, w := { proto := .h2 } } := by simp [run, hi]
+  obtain ⟨h1, h2, h3, h4⟩ := alpn_foldl P limit rs { sel := .alpn, w := { proto := .h2 } } rfl rfl
+  rw [hr]
+  refine ⟨h1, by rw [h1]; rfl, h2, h3, by simpa using h4, ?_⟩
+  rw [h1]; simp [Sel.initPath, initiatePath, HC.Extracted.H2Init.upgradePath]
+
+/-- without ALPN h2 the connection starts on an `H11Protocol` (and a switch is only ever made from there) -/
+theorem no_alpn_starts_h11 (alpn : Option String) (ha : alpn ≠ some "h2") :
+    (RS.init alpn).sel = .h11wait ∧ (RS.init alpn).w.proto = .h11 := by
+  have : selectByAlpn alpn = .h11 := by unfold selectByAlpn; simp [ha]
+  simp [RS.init, this]
+
+/-! ### beyond `h11_max_incomplete_size` the outcome *does* depend on the segmentation (h11's own 431 rule) -/
+
+private def r0 : ReqEv := { method := "GET".b, target := "/".b, headers := [], version := "1.1".b }
+
+/-- a toy parser: the head is complete once three bytes are there -/
+def toyParser : HeadParser where
+  parse := fun buf => if 3 ≤ buf.length then .head r0 3 else .need
+  nil_need := by simp
+  head_le := by
+    intro buf r n h
+    split at h
+    · simp only [Parse.head.injEq] at h; omega
+    · simp at h
+  head_stable := by
+    intro buf r n more h
+    split at h
+    · have : 3 ≤ (buf ++ more).length := by simp only [List.length_append]; omega
+      simp only [this, if_true]; exact h
+    · simp at h
+  bad_stable := by
+    intro buf more h
+    split at h <;> simp at h
+
+/-- the same three bytes, limit 1: in one read a request, in two reads (2 + 1) the incomplete head is over the limit after
+    the first read → error.  `WithinLimit` fails for this input, as it must -/
+theorem segmentation_dependent_beyond_limit :
+    (run toyParser 1 none [[1, 2], [3]]).sel = .h11bad ∧ (run toyParser 1 none [[1, 2, 3]]).sel = .h11 r0 false ∧
+    ¬ WithinLimit toyParser 1 [1, 2, 3] := by
+  refine ⟨by decide, by decide, ?_⟩
+  intro h
+  have := h [1, 2] ⟨[3], rfl⟩ (by decide)
+  simp at this
+
+/-! ## WebSocket or HTTP: the stream class -/
+
+/-- **HTTP/1: `_create_stream` makes a `WSStream` iff** the *last* `Connection` header has a token `upgrade` (comma list, any
+    case, blanks ignored), the *last* `Upgrade` header (the loop keeps no earlier one) is `websocket` in any case, and the
+    method is `GET` in any case - the source's own test and constants.  Everything else is an `HTTPStream` -/
+theorem ws_iff_upgrade_get (r : ReqEv) :
+    isWebsocketRequest r =
+      Select.wsGuard ((Bytes.splitOnB 44 (Bytes.lower ((hdr Select.wsConnectionKey r.headers).getD []))).any (fun t => Bytes.stripL1 t == Select.wsConnToken))
+        (Bytes.lower ((hdr Select.wsUpgradeKey r.headers).getD []) == Select.wsUpgradeToken) (Bytes.upper r.method == Select.wsMethod) ∧
+    (isWebsocketRequest r = true ↔
+      ((Bytes.splitOnB 44 (Bytes.lower ((hdr "connection".b r.headers).getD []))).any (fun t => Bytes.stripL1 t == "upgrade".b) = true ∧
+       Bytes.lower ((hdr "upgrade".b r.headers).getD []) = "websocket".b ∧ Bytes.upper r.method = "GET".b)) := by
+  refine ⟨?_, HC.Props.C01.websocket_iff r⟩
+  simp [isWebsocketRequest, Select.wsGuard, Select.wsConnectionKey, Select.wsConnToken, Select.wsUpgradeKey, Select.wsUpgradeToken, Select.wsMethod]
+
+/-- the last `Upgrade` header wins: whatever came before, the value looked at is the (stripped) value of the last header
+    whose stripped, lower-cased name is `upgrade` -/
+theorem ws_last_upgrade_wins (hs : Headers) (n v : Bytes) (hn : Bytes.lower (Bytes.stripL1 n) = "upgrade".b) :
+    hdr "upgrade".b (hs ++ [(n, v)]) = some (Bytes.stripL1 v) := by
+  simp [hdr, hn]
+
+/-- a WebSocket request is never an h2c switch candidate and vice versa: both read the same last `Upgrade` value -/
+theorem ws_not_h2c (r : ReqEv) (h : isWebsocketRequest r = true) : reqIsH2c r = false := by
+  have hw := ((ws_iff_upgrade_get r).2.mp h).2.1
+  unfold reqIsH2c
+  cases hu : hdr "upgrade".b r.headers with
+  | none => simp
+  | some u =>
+    rw [hu] at hw
+    simp only [Option.getD_some] at hw
+    simp only [Option.map_some]
+    rw [hw]
+    decide
+
+/-- **HTTP/2: `_create_stream` makes a `WSStream` iff the (last) `:method`, upper-cased, is `CONNECT`** (that `:protocol` is
+    `websocket` is the handshake's business: C11 `validSpec "2"`); the model's `isConnect` is that test -/
+theorem h2_ws_iff_connect (sid : Nat) (hs : Headers) :
+    (HC.Proto.H2Deliver.reqOf sid hs).isConnect = (Bytes.upper ((HC.Proto.H2Deliver.lastVal hs ":method".b).getD []) == Select.h2WsMethod) := by
+  simp [HC.Proto.H2Deliver.reqOf, Select.h2WsMethod]
+
+/-! ## The h2c upgrade and its HTTP2-Settings payload (F43, repaired in 2e1c011) -/
+
+/-- **an h2c upgrade is served as stream 1 iff h2 accepts the HTTP2-Settings payload**; otherwise the connection is ended
+    right after the 101 (GOAWAY, `Closed`) and no stream exists.  In both cases the 101 has been written and `initiate` was
+    entered on the upgrade path with exactly the request's payload.  Holds for every segmentation (the selection is a
+    function of the bytes: `segmentation_independent`) -/
+theorem h2c_served_iff_settings_accepted (P : HeadParser) (alpn : Option String) (total : Bytes) (r : ReqEv) (served : Bool)
+    (h : (outcome P alpn total).sel = .h2c r served) :
+    served = HC.Lib.H2Settings.accepts (h2cSettings r) ∧
+    ((outcome P alpn total).sel.stream1 = some (h2cHeaders r) ↔ HC.Lib.H2Settings.accepts (h2cSettings r) = true) ∧
+    ((outcome P alpn total).sel.refused = true ↔ HC.Lib.H2Settings.accepts (h2cSettings r) = false) ∧
+    (outcome P alpn total).sel.wrote101 = true ∧
+    (outcome P alpn total).sel.initPath = some (.upgrade (h2cSettings r)) ∧
+    checkProtocol r = .h2c := by
+  have key : served = HC.Lib.H2Settings.accepts (h2cSettings r) ∧ checkProtocol r = .h2c := by
+    unfold outcome at h
+    cases ha : selectByAlpn alpn with
+    | h2 => simp [ha] at h
+    | h11 =>
+      simp only [ha] at h
+      cases hp : P.parse total with
+      | need => simp [hp] at h
+      | bad => simp [hp] at h
+      | head r' n =>
+        simp only [hp] at h
+        cases hc : checkProtocol r' with
+        | none => simp [hc] at h
+        | prior => simp [hc] at h
+        | h2c =>
+          simp only [hc, Sel.h2c.injEq] at h
+          obtain ⟨h1, h2⟩ := h
+          subst h1
+          exact ⟨h2.symm, hc⟩
+  rw [h]
+  refine ⟨key.1, ?_, ?_, rfl, ?_, key.2⟩
+  · rw [key.1]; cases HC.Lib.H2Settings.accepts (h2cSettings r) <;> simp [Sel.stream1]
+  · rw [key.1]; cases HC.Lib.H2Settings.accepts (h2cSettings r) <;> simp [Sel.refused]
+  · simp [Sel.initPath, h2c_reserves_stream1]
+
+/-- an absent or empty HTTP2-Settings header is accepted (today's behaviour, kept): the upgrade request is served -/
+theorem h2c_empty_settings_served (r : ReqEv) (h : h2cSettings r = []) : HC.Lib.H2Settings.accepts (h2cSettings r) = true := by
+  rw [h]; rfl
+
+/-- **the refusal, source side** (`H2Protocol.initiate`): exactly the classes h2's `initiate_upgrade_connection` raises for
+    the value are caught - `ValueError` (a non-ASCII `str`; `binascii.Error` is a subclass), hyperframe's
+    `InvalidFrameError` (length), h2's `InvalidSettingsValueError` (range) -, the handler sends GOAWAY(PROTOCOL_ERROR), flushes,
+    sends `Closed` and **returns** (no send task, no `_create_stream`); the value is decoded as latin-1, which cannot fail -/
+theorem h2c_refused_source :
+    Select.h2cRefusedExcepts = ["ValueError", "hyperframe.exceptions.InvalidFrameError", "h2.exceptions.InvalidSettingsValueError"] ∧
+    Select.h2cRefusedCalls = ["self.connection.close_connection", "self._flush", "self.send", "Closed"] ∧
+    Select.h2cRefusedErrorCode = ["h2.errors.ErrorCodes.PROTOCOL_ERROR"] ∧
+    Select.h2cRefusedReturns = true ∧ Select.h2cSettingsCodec = "latin1" := by decide
+
+/-- what h2 accepts (model `HC.Lib.H2Settings`, tied to the installed h2 / hyperframe / binascii by the harness): the empty
+    value; otherwise an ASCII string whose lenient base64 decoding (`-_` or `+/`, other characters skipped, a complete pad
+    sequence ends the input) is a whole number of (u16, u32) entries whose final values are in range -/
+theorem settings_accepted_iff (s : Bytes) (hs : s ≠ []) :
+    HC.Lib.H2Settings.accepts s = true ↔
+      HC.Lib.H2Settings.isAscii s = true ∧
+      ∃ raw ps, HC.Lib.H2Settings.b64decode s = some raw ∧ HC.Lib.H2Settings.pairs raw = some ps ∧ raw.length = 6 * ps.length ∧
+        HC.Lib.H2Settings.pairsOk ps = true := by
+  rw [HC.Lib.H2Settings.accepts_iff s hs]
+  constructor
+  · rintro ⟨ha, raw, ps, h1, h2, h3⟩
+    exact ⟨ha, raw, ps, h1, h2, HC.Lib.H2Settings.pairs_length raw ps h2, h3⟩
+  · rintro ⟨ha, raw, ps, h1, h2, _, h3⟩
+    exact ⟨ha, raw, ps, h1, h2, h3⟩
+
+/-- the ranges: only ENABLE_PUSH (2), INITIAL_WINDOW_SIZE (4), MAX_FRAME_SIZE (5) and ENABLE_CONNECT_PROTOCOL (8) are checked;
+    every other identifier - known or unknown - takes any value -/
+theorem settings_value_ranges (ident value : Nat) :
+    HC.Lib.H2Settings.valueOk ident value = true ↔
+      ((ident = 2 → value ≤ 1) ∧ (ident = 4 → value ≤ 2147483647) ∧ (ident = 5 → 16384 ≤ value ∧ value ≤ 16777215) ∧ (ident = 8 → value ≤ 1)) := by
+  unfold HC.Lib.H2Settings.valueOk
+  by_cases h2 : ident = 2
+  · subst h2; simp
+  · by_cases h4 : ident = 4
+    · subst h4; simp
+    · by_cases h5 : ident = 5
+      · subst h5; simp
+      · by_cases h8 : ident = 8
+        · subst h8; simp
+        · simp [h2, h4, h5, h8]
+
+-- the payloads of the harness: accepted …
+example : HC.Lib.H2Settings.accepts "AAMAAABkAAQAAP__".b = true := by decide
+example : HC.Lib.H2Settings.applied "AAMAAABkAAQAAP__".b = some [(3, 100), (4, 65535)] := by decide
+example : HC.Lib.H2Settings.accepts "AAMAAABk".b = true := by decide
+-- … and refused: three bytes (the value of the pinned test), bad padding, MAX_FRAME_SIZE = 0, not ASCII
+example : HC.Lib.H2Settings.accepts "abcd".b = false := by decide
+example : HC.Lib.H2Settings.accepts "AAMAAABkAAQAAP".b = false := by decide
+example : HC.Lib.H2Settings.accepts "AAUAAAAA".b = false := by decide
+example : HC.Lib.H2Settings.accepts [0xff, 0xfe] = false := by decide
+-- a later value of the same identifier repairs an earlier one (a `dict` is validated): MAX_FRAME_SIZE 0, then 16384
+example : HC.Lib.H2Settings.accepts "AAUAAAAAAAUAAEAA".b = true := by decide
+
+/-! ### the hypotheses are satisfiable: the parser the driver runs, on a real opening -/
+
+private def upReq : ReqEv :=
+  { method := "GET".b, target := "/up".b, headers := [("host".b, "h".b), ("upgrade".b, "h2c".b), ("http2-settings".b, "AAMAAABk".b)], version := "1.1".b }
+private def upHead : Bytes := "GET /up HTTP/1.1\r\nhost: h\r\nupgrade: h2c\r\nhttp2-settings: AAMAAABk\r\n\r\n".b
+
+example : (run (oracle upHead upReq false) 16384 none [upHead.take 10, upHead.drop 10 ++ "XY".b, "Z".b]).view =
+    { sel := .h2c upReq true, proto := .h2, h11Consumed := upHead, h2Input := "XYZ".b } := by decide
+example : (run (oracle upHead upReq false) 16384 none [upHead ++ "XYZ".b]).view =
+    { sel := .h2c upReq true, proto := .h2, h11Consumed := upHead, h2Input := "XYZ".b } := by decide
+example : (run (oracle upHead upReq false) 16384 (some "h2") [upHead.take 10, upHead.drop 10]).view =
+    { sel := .alpn, proto := .h2, h11Consumed := [], h2Input := upHead } := by decide
 
 end HC.Props.C13
